@@ -35,7 +35,7 @@ ASSUMPTIONS = [
     "the peer's messages are template messages allowed over UDP; the session manager is a stub (no HTTP)",
     "retry budget is the default 10 in half of the runs and 3 in the others",
 ]
-MUST_REACH = {"reliable_arrivals": 1000, "duplicate_arrivals": 200, "unreliable_arrivals": 500, "acks_sent_checked": 1000,
+MUST_REACH = {"packetacks_with_only_appended_acks": 30, "reliable_arrivals": 1000, "duplicate_arrivals": 200, "unreliable_arrivals": 500, "acks_sent_checked": 1000,
               "sends_completed_by_appended_ack": 50, "sends_completed_by_packetack": 50, "budgets_exhausted": 5,
               "region_level_duplicates_checked": 100, "reordered_first_arrivals": 100, "session_level_duplicates_checked": 100, "ids_checked_increasing": 1000, "long_circuit_retransmissions": 100, "sends_of_prenumbered_messages": 50, "sequences_with_fractional_resend_interval": 10}
 
@@ -133,6 +133,8 @@ def _run_sequence(ctx, rng, seed):
         flags = (int(PacketFlags.RELIABLE) if reliable else 0) | (int(PacketFlags.RESENT) if resent else 0)
         if blocks is not None:
             m = Message("PacketAck", *[Block("Packets", ID=b) for b in blocks], packet_id=pid, flags=flags, acks=tuple(acks))
+            if not blocks:
+                m.create_block_list("Packets")       # present, with a count of zero
         else:
             m = Message("CompletePingCheck", Block("PingID", PingID=pid & 0xFF), packet_id=pid, flags=flags, acks=tuple(acks))
         if acks:
@@ -221,6 +223,12 @@ def _run_sequence(ctx, rng, seed):
             next_peer_id += 1
             blocks = _choose_acks(rng, pending, last_client_id) or [rng.randint(5000, 6000)]
             acks = _choose_acks(rng, {k: v for k, v in pending.items() if k not in blocks}, last_client_id) if rng.random() < 0.4 else []
+            if rng.random() < 0.25:
+                # what arrives when the peer's PacketAck came through a proxy that took its own ids out of the blocks: no
+                # blocks left, only appended acks
+                acks = list(blocks) + [a for a in acks if a not in blocks]
+                blocks = []
+                ctx.count("packetacks_with_only_appended_acks")
             history.append(("packetack", pid, tuple(blocks), tuple(acks)))
             feed(peer_packet(pid, False, False, acks=acks, blocks=blocks))
             msgs = client_packets()
